@@ -150,7 +150,7 @@ def _ambient_task(t):
     from engine import util
     modname, funcname, arg = t
     mod = sys.modules.get(modname) or importlib.import_module(modname)
-    for p in ([mod.pms] if hasattr(mod, "pms") else [mod.pm(c) for c in getattr(mod, "CONFIGS", [])]):
+    for p in ([mod.pms] if hasattr(mod, "pms") else [mod.pm("P")]):
         util.ambient(p)
     res = getattr(mod, funcname)(arg)
     res["viols"] = [(s_ + ":after_other_decoders_ran_in_the_process", c_) for s_, c_ in res["viols"]]
